@@ -95,9 +95,9 @@ def run_case(case, ctx):
     y = numpy.array(lvals, dtype=object if lname == "str" else None)[yi]
     if lname == "str":
         y = y.astype(str)
-    base = ["logreg", "logreg", "logreg", "tree", "gnb", "svc", "sgd"][rng.randint(7)]
+    base = ["logreg", "logreg", "logreg", "tree", "gnb", "svc", "sgd", "logreg-no-intercept", "gnb"][rng.randint(9)]
     algo = [None, "none", "auto", "intercept_sort", "intercept_sort_always"][rng.randint(5)]
-    if base not in ("logreg", "sgd") and algo == "intercept_sort_always":
+    if base not in ("logreg", "sgd", "logreg-no-intercept") and algo == "intercept_sort_always":
         algo = "auto"
     params = dict(max_depth=int(rng.randint(1, 7)), min_samples_leaf=int([1, 2, 5, 10, 20][rng.randint(5)]),
                   min_samples_split=int([2, 5, 15, 40][rng.randint(4)]), fit_improve_algo=algo,
@@ -105,6 +105,8 @@ def run_case(case, ctx):
     weighted = rng.rand() < 0.25
     frame = rng.rand() < 0.15
     est = {"logreg": lambda: LogisticRegression(max_iter=500),
+           # a linear node classifier without intercept: the border of an improved node moves through its threshold
+           "logreg-no-intercept": lambda: LogisticRegression(max_iter=500, fit_intercept=False),
            "tree": lambda: DecisionTreeClassifier(max_depth=2, random_state=0),
            "gnb": lambda: GaussianNB(),
            "svc": lambda: SVC(probability=True, random_state=0, kernel=["rbf", "linear"][sub % 2]),
@@ -187,6 +189,20 @@ def run_case(case, ctx):
 
     # ---- behaviour on the training rows (exact ties live here) and on new rows
     queries = [("train", X), ("new", (rng.randn(40, X.shape[1]) * 1.5).astype(X.dtype))]
+    if base == "gnb" and X.dtype == numpy.float64:
+        # finite rows so far away that a node classifier answers NaN for them (exp of -inf minus -inf): the path goes on
+        # to the 'below' child (NaN > threshold is false), and the probabilities are those of the node that ends the path
+        # (whether a node answers NaN depends on its own variances: magnitudes from 1e152 to 3e156 in steps of two, on
+        # every feature, both signs - the squares cross the float64 overflow in between)
+        mags = 1e152 * 2.0 ** numpy.arange(15)
+        far = numpy.zeros((2 * len(mags) * X.shape[1], X.shape[1]))
+        r_ = 0
+        for f_ in range(X.shape[1]):
+            for sg in (1.0, -1.0):
+                for mg in mags:
+                    far[r_, f_] = sg * mg
+                    r_ += 1
+        queries.append(("far-rows", far))
     if frame and X.shape[1] >= 2:
         queries.append(("reordered-columns", (rng.randn(30, X.shape[1]) * 1.5).astype(X.dtype)))
     for qname, Q in queries:
